@@ -343,6 +343,25 @@ func runConcurrency(rc *RunCtx) *Violation {
 	simrt.ShuffleMaps = simrt.Choose(2) == 1
 	mb := &mailbox{}
 	withFaults := simrt.Choose(2) == 1
+	// long history: a long-lived process has pushed hundreds of distinct keys through the shared
+	// back-reference cache before the concurrent phase, and keeps adding new ones during it
+	churn := 0
+	if (parsers[0].w == worldHeredoc) && simrt.Choose(12) == 1 {
+		churn = 150 + simrt.Choose(160)
+		rc.probe("long sequential history (hundreds of distinct cache keys) before the concurrent phase")
+	}
+	opSerial := 0
+	opDelims := func() [3]string {
+		if churn == 0 {
+			return delims
+		}
+		opSerial++
+		var d [3]string
+		for i := range d {
+			d[i] = fmt.Sprintf("%sq%d%c", delims[0][:6], opSerial, 'a'+i)
+		}
+		return d
+	}
 
 	// ---- plan ---------------------------------------------------------------------------------
 	drawOp := func() *concOp {
@@ -384,7 +403,7 @@ func runConcurrency(rc *RunCtx) *Violation {
 				op.kind = "ParserForProduction"
 				op.input = []string{"1 + 2 * (3 - y)", "f(x, g(1))", "(", "a b"}[simrt.Choose(4)]
 			} else {
-				x, _ := drawDoc(sp.w, delims, 4)
+				x, _ := drawDoc(sp.w, opDelims(), 4)
 				op.input = x
 				if withFaults && !sp.w.verbatim {
 					op.input, _ = deriveInput(rc, x, nil, allContentFaults)
@@ -455,6 +474,12 @@ func runConcurrency(rc *RunCtx) *Violation {
 	var prefix []*concOp
 	for i := 0; i < nPrefix; i++ {
 		prefix = append(prefix, drawOp())
+	}
+	for i := 0; i < churn; i++ {
+		d := opDelims()
+		op := &concOp{kind: "Parser.Lex", pi: 0, input: "<<" + d[0] + " w " + d[0] + ";"}
+		op.key = fmt.Sprintf("p0|%s|%s", op.kind, op.input)
+		prefix = append(prefix, op)
 	}
 	nTasks := 2 + simrt.Choose(5)
 	taskOps := make([][]*concOp, nTasks)
